@@ -110,33 +110,25 @@ theorem matchFail_flags (c : Ctx) (n : Nat) (fn : Nat → Nat → Bool) (p : Lis
     (hb : c.buf.unsafeToConcat c.buf.idx (some R.r.endPos) = .ok b)
     (hidx : c.buf.idx < c.buf.len) (hlen : c.buf.len ≤ c.buf.info.length)
     (hreq : c.buf.flags &&& Gen.Buf.produceUnsafeToConcat ≠ 0) :
-    (R.why = .iter → c.buf.idx < R.r.endPos ∧ R.r.endPos ≤ c.buf.len ∧
+    (R.why ≠ .tooLong → c.buf.idx < R.r.endPos ∧ R.r.endPos ≤ c.buf.len ∧ Rd.inp c.buf.idx ∈ R.reads ∧
         ∀ i, Rd.inp i ∈ R.reads → c.buf.idx ≤ i ∧ i < R.r.endPos ∧
           ∃ x, c.buf.info[i]? = some x ∧ ConcatFlagged b.info i x) ∧
     (R.why = .tooLong → R.reads = []) ∧
-    (R.why = .ligComp → R.r.endPos = 0 ∧ Rd.inp c.buf.idx ∈ R.reads ∧ b.info = c.buf.info ∧ b.out = c.buf.out) ∧
     R.why ≠ .matched ∧ (∀ j, Rd.out j ∉ R.reads) ∧ (∀ j, Rd.lig j ∈ R.reads → j < c.buf.outLen) := by
-  obtain ⟨r1, r2, r3, r4, r5⟩ := matchInputI_span c _ _ _ R hR hidx
+  obtain ⟨r1, r2, r4, r5⟩ := matchInputI_span c _ _ _ R hR hidx
   have hnm : R.why ≠ .matched := fun hw => by rw [r1.mpr hw] at hok; cases hok
-  refine ⟨?_, fun hw => (r2 hw).1, ?_, hnm, ?_, ?_⟩
+  refine ⟨?_, fun hw => (r2 hw).1, hnm, ?_, ?_⟩
   · intro hw
-    obtain ⟨q1, q2⟩ := r4 (Or.inr hw)
+    obtain ⟨q1, q2⟩ := r4 hw
     obtain ⟨b', hb', hu, _⟩ := unsafeToConcat_span c.buf c.buf.idx R.r.endPos hreq (by omega) q2 hlen
     rw [hb] at hb'; cases hb'
-    refine ⟨q1, q2, ?_⟩
+    refine ⟨q1, q2, matchInputI_reads_cur c _ _ _ R hR hw, ?_⟩
     intro i hi
     rcases r5 _ hi with ⟨i', a1, a2, a3, a4⟩ | ⟨j, a1, _⟩
     · cases a1
-      have hlt := a4 (by simp [hw])
       have hil : i < c.buf.info.length := by omega
-      exact ⟨a2, hlt, _, List.getElem?_eq_getElem hil, ConcatFlagged.of_upd hu (List.getElem?_eq_getElem hil) a2 hlt⟩
+      exact ⟨a2, a4, _, List.getElem?_eq_getElem hil, ConcatFlagged.of_upd hu (List.getElem?_eq_getElem hil) a2 a4⟩
     · cases a1
-  · intro hw
-    have h0 := r3 hw
-    obtain ⟨b', hb', e1, e2⟩ := unsafeToConcat_zero c.buf c.buf.idx
-    rw [h0] at hb
-    rw [hb] at hb'; cases hb'
-    exact ⟨h0, matchInputI_reads_cur c _ _ _ R hR (by simp [hw]), e1, e2⟩
   · intro j hj
     rcases r5 _ hj with ⟨i', a1, _⟩ | ⟨j', a1, _⟩ <;> cases a1
   · intro j hj
